@@ -73,6 +73,7 @@ INFO = {
         'would keep removed directories alive); "handle kept" is a planned choice',
     ],
 }
+INFO['rule'] += ' Later additions: remove + re-add of the same path while its scan is pending (directed).'
 
 USER = 'bob'
 BASE_MTIME = 1_600_000_000
